@@ -168,19 +168,41 @@ class LeanSide(object):
         self.timing = {}
 
     # -- translator ---------------------------------------------------------------
+    def gen_deps(self):
+        """names of the Gen/*.lean files that Props/<prop>.lean or Driver/<prop>.lean import, transitively"""
+        seen, todo, gens = set(), ['Props.%s' % self.prop, 'Driver.%s' % self.prop], set()
+        while todo:
+            mod = todo.pop()
+            if mod in seen:
+                continue
+            seen.add(mod)
+            f = LEAN_DIR / (mod.replace('.', '/') + '.lean')
+            if not f.exists():
+                continue
+            if mod.startswith('Gen.'):
+                gens.add(f.name)
+            for m in re.finditer(r'^\s*(?:public\s+)?import\s+(\S+)', f.read_text(), re.M):
+                if m.group(1).split('.')[0] in ('PyxModel', 'Gen', 'Proofs', 'Props', 'Driver'):
+                    todo.append(m.group(1))
+        return gens
+
     def regenerate(self):
         t0 = time.time()
         sys.path.insert(0, str(VERIF / 'translator'))
         import extract
         out = self.ws.tmp('gen')
+        deps = self.gen_deps()
+        self.gen_dep_files = sorted(deps)
         try:
-            errors = extract.generate(str(self.ws.repo), str(out))
+            errors = extract.generate(str(self.ws.repo), str(out), only=deps)
         except Exception as e:  # extractor crash: the source no longer has the expected shape
             errors = ['translator crashed: %s: %s' % (type(e).__name__, e)]
         for e in errors:
             self.broken.append('translator: ' + e)
         changed = []
         for f in sorted(out.glob('*.lean')):
+            if f.name not in deps:
+                continue
             ref = self.dir / 'Gen' / f.name
             if not ref.exists() or ref.read_bytes() != f.read_bytes():
                 changed.append(f.name)
